@@ -30,6 +30,7 @@ class Bounds:
     int_abs: int = 0  # > 0: int leaves range over [-int_abs, int_abs] (str(int) forks per digit)
     float_pool: bool = False  # float leaves from a finite pool (str(float) / int(float) realise)
     str_pool: bool = False  # str leaves from a finite pool (int(str) / dict lookups realise)
+    distinct_sets: bool = False  # no duplicate items at set-typed positions (C06 / C18 domain)
 
     def as_dict(self):
         return dict(self.__dict__)
@@ -220,6 +221,11 @@ class Gen:
                 for x in out:  # NaN is not reflexive: outside the oracle domain for sets
                     if isinstance(x, float) and x != x:
                         raise Assume("NaN in a set")
+                if self.b.distinct_sets:
+                    from vf.oracle.deser import _unique
+
+                    if not _unique(out):
+                        raise Assume("duplicate items at a set-typed position")
             return out
         if k == "tuple":
             n = len(s.a)
